@@ -22,6 +22,7 @@ RULE = (
     "Evidence: maximum number of threads simultaneously inside Z3 calls, guard exits, yield injections.  "
     "Non-trivial: the history has an add and a judged query and ran while at least one other thread was alive; "
     "distinct by (configuration, history) hash."
+    " Session 4: fresh-symbol round (same base names in every thread, symbols handed to the neighbour, backends asked to drop caches half-way)."
 )
 ASSUMPTIONS = [
     "a finite sample of real schedules (the interleavings are chosen by the OS scheduler under the listed switch intervals and yield injection); C19 covers the guard exhaustively",
